@@ -222,7 +222,12 @@ class IncrementalExecutor(Executor[DeliveryGroupMap]):
         awaitables: list[Any] = []
         is_awaitable = self.is_awaitable
         for task in self.tasks:
+            # a computation that is already running has only settled once its
+            # cancelled future has unwound, so that future is awaited as well
+            pending_future = task.computation.pending_future
             abort_result = task.computation.abort(reason)
+            if pending_future is not None:
+                awaitables.append(pending_future)
             if is_awaitable(abort_result):
                 awaitables.append(abort_result)
         for stream in self.streams:
